@@ -776,3 +776,41 @@ def c13(run, replay):
     for s in scen[:3]:
         run.sample(s)
     run.sample([e for e in trace if e.get("ev") in ("CallEnd", "ProcessExit")][:10])
+
+
+# --------------------------------------------------------------------------------------------- C14
+@check("C14")
+def c14(run, replay):
+    run.assumptions += [
+        "writers exercised together on one connection: caller requests (small and multi-buffer), cancel notifications (waiting caller and subscription "
+        "watcher), handler responses through the lazily acquired writer (up to 60 kB), channel registration replies, channel values and closes, reverse "
+        "calls, pings every 0.3-0.8 ms on both sides, close handshake, connection swap on forced reconnects; 1 and n Ps; seeded delays inside the write sections",
+        "torn / interleaved messages are judged by the frame-aware proxy (every frame parsed, fragment sequences checked), concurrent-write panics of the "
+        "websocket library by the death of the child process, lock discipline by the hook events at every write section (TryLock-based 'lock held' bit)",
+        "unsynchronised accesses that never produce a torn frame, an overlapping write section or a crash are not decided here (no Go data-race statement)",
+    ]
+    thorough = run.tier == "thorough"
+    wd = run.dir("work")
+    rnd = random.Random(run.seed)
+    run.model_check(wd, "WriterLock.tla", "WriterLock.cfg" if thorough else "WriterLock_q.cfg", timeout=2400)
+    r = run.tlc(wd, "WriterLock.tla", "WriterLock_nolock.cfg", timeout=600, tag="model_runs")
+    if r["violated"] not in ("MutualExclusion", "Contiguous"):
+        raise vp.ToolFailure("self-test: WriterLock with a lock-free writer should be violated, got %s" % r["violated"])
+    scen = []
+    for i in range(30 if thorough else 10):
+        args = {"rounds": rnd.choice([2, 3, 4]), "n": rnd.choice([8, 12, 20]), "reconnect": i % 2 == 0, "pingus": rnd.choice([300, 500, 800]),
+                "procs": rnd.choice([0, 0, 1, 2])}
+        if i % 3 != 2:
+            args["p"] = rnd.choice([0.3, 0.6, 0.9])
+            args["delay"] = ["wl.enter"] + rnd.sample(["fwd.val", "fwd.close", "fwd.reg", "h.resp.pre", "lazy.acquire.pre", "write.req.pre", "ctxasync.done",
+                                                        "cancel.enq.pre", "redial.swap"], 3)
+        scen.append({"sc": "c14.writers", "args": args})
+    trace, viol = run_ws_scenarios(run, wd, scen, "c14", hooks=True, timeout=3000)
+    report_ws(run, trace, viol, "C14", scen, "writers")
+    run.cov["wire_frames_parsed"] = sum(1 for e in trace if e.get("ev") == "WireFrame")
+    run.cov["write_sections_observed"] = sum(1 for e in trace if e.get("ev") == "h:wl.enter")
+    run.cov["distinct_nontrivial"] = len(set(json.dumps(s, sort_keys=True) for s in scen))
+    run.cov["rule"] = "mixed-writer stress scenarios (rounds x writers per round x reconnects x ping interval x Ps x delay set); distinct = distinct descriptions"
+    for s in scen[:3]:
+        run.sample(s)
+    run.sample([e for e in trace if e.get("ev") in ("h:wl.enter", "WireFrame")][:10])
